@@ -18,11 +18,13 @@ Probes == {"plss_nodir", "plss_full", "tract_build", "trs_attrs", "trs_dict", "f
            "plss_ocrlike", "tract_bareqq",     \* (texts that only the optional OCR / clean_qq patterns would read)
            "held_parse",                       \* parse() of an object that may have been created earlier, under other defaults
            "cfg_parse",                        \* a parse configured with a Config object the caller has used before
+           "tract_deep",                       \* aliquots of three and four components under a maximum depth
            "held_tract"}                       \* parse() of a tract the caller keeps (created at first use, maybe dry-run before)
 NS == {"n", "s"}   EW == {"e", "w"}
 Default == [ns |-> "n", ew |-> "w"]
 MutateVia == {"trs_to_dict_str", "trs_to_dict_obj", "tract_to_dict", "tracts_to_dict", "tracts_to_list", "flag_lists"}
-Others == {"o1", "o2", "o3", "o4"}              \* o3: parsed with ocr_scrub, o4: parsed with clean_qq / find_twprge(ocr_scrub)
+Others == {"o1", "o2", "o3", "o4", "o5"}        \* o3: parsed with ocr_scrub, o4: parsed with clean_qq / find_twprge(ocr_scrub),
+                                                \* o5: the aliquots of probe tract_deep parsed under other depth settings
 \* which MasterConfig components a probe may depend on
 UsesNS(p) == p \in {"plss_nodir", "tract_build", "find_twprge", "held_parse", "cfg_parse"}
 UsesEW(p) == p \in {"tract_build", "find_twprge", "cfg_parse"}
